@@ -131,11 +131,12 @@ BuildPlatform == pc = "BuildPlatform" /\ PlatformStep("BuildPlan")
 BuildPlan ==
   /\ pc = "BuildPlan"
   /\ \/ Go("BuildStore", "plan", "ok")
-     \/ \E p \in {"malformed", "missing"} : Fail("plan", p)
+     \/ \E p \in {"malformed", "missing", "nonutf8"} : Fail("plan", p)
 BuildStore ==
   /\ pc = "BuildStore"
   /\ \/ \E s \in {"absent", "ok"} : Go("BuildT1", "store", s)
-     \/ Fail("store", "malformed")
+     \* present but not a readable document: syntax error, not UTF-8, not a file
+     \/ \E s \in {"malformed", "nonutf8", "isdir"} : Fail("store", s)
 BuildT1 == pc = "BuildT1" /\ TargetStep("t_os", "BuildT2")
 BuildT2 == pc = "BuildT2" /\ TargetStep("t_arch", "BuildT2v")
 BuildT2v == pc = "BuildT2v" /\ VariantStep("BuildT3")
